@@ -106,7 +106,7 @@ def abstract(ops):
         elif o[0] == "create":
             res.append(".createTmp" if o[1].endswith(".tmp") else ".createInPlace")
         elif o[0] == "create-notrunc":
-            res.append(".openNoTruncate")
+            res.append(".openTmp" if o[1].endswith(".tmp") else ".openInPlace")
         elif o[0] == "write":
             if not res or res[-1] != ".write":
                 res.append(".write")
